@@ -171,6 +171,27 @@ func runCheck(id, tier string, seed int64) int {
 		kreplays = append(kreplays, &knownReplay{f: f, rf: rf, w: w})
 	}
 
+	// regression inputs: replays of defects that were repaired in /repo (known_findings.json
+	// "fixed:" entries). They suppress nothing: if one of them fails again, it is a violation.
+	type fixedReplay struct {
+		path string
+		rf   *replayFile
+		w    *spec.World
+	}
+	var freplays []*fixedReplay
+	if fixedFiles, _ := filepath.Glob(filepath.Join(world.VerifDir, "replays", "fixed", id+"-*.json")); len(fixedFiles) > 0 {
+		sort.Strings(fixedFiles)
+		for i, fp := range fixedFiles {
+			rf, w, err := loadReplay(fp)
+			if err != nil || w.Name == "" {
+				continue
+			}
+			renameWorld(w, fmt.Sprintf("f%d%s", i, w.Name))
+			worlds = append(worlds, w)
+			freplays = append(freplays, &fixedReplay{path: fp, rf: rf, w: w})
+		}
+	}
+
 	scratch, err := os.MkdirTemp("", "verif-check-")
 	if err != nil {
 		return fail2("%v", err)
@@ -234,6 +255,11 @@ func runCheck(id, tier string, seed int64) int {
 				if !seenSig[sig] {
 					seenSig[sig] = true
 					path, _ := writeReplay(id, seed, bw.Spec, nil, bw.BootErr)
+					for _, fr := range freplays {
+						if fr.w == bw.Spec {
+							path = fr.path // a repaired boot failure is back
+						}
+					}
 					found = append(found, &foundViolation{sig: sig, class: "boot", detail: bw.BootErr, replay: path})
 				}
 				continue
@@ -261,9 +287,38 @@ func runCheck(id, tier string, seed int64) int {
 				}
 			}
 		}
+		// replays of repaired defects living in this batch
+		var fjobs []*job
+		fjobOf := map[*job]*fixedReplay{}
+		for _, fr := range freplays {
+			if len(fr.rf.Plan) == 0 || string(fr.rf.Plan) == "null" {
+				continue
+			}
+			for _, bw := range b.Worlds {
+				if bw.Spec == fr.w && bw.Refused == "" && bw.BootErr == "" {
+					pf := filepath.Join(scratch, "fplan-"+bw.Spec.Name+".json")
+					_ = os.WriteFile(pf, fixPlanWorld(fr.rf.Plan, bw.Spec.Name), 0o644)
+					j := &job{world: bw, mode: planMode(fr.rf.Plan), plan: pf, out: filepath.Join(scratch, "fres-"+bw.Spec.Name+".json")}
+					fjobs = append(fjobs, j)
+					fjobOf[j] = fr
+				}
+			}
+		}
 		extra := append(pc.extraEnv(b), tc.env...)
 		timeout := time.Duration(tc.timeoutS) * time.Second
-		runJobs(b, id, append(rjobs, jobs...), knownSigs, extra, 16, timeout)
+		runJobs(b, id, append(append(rjobs, fjobs...), jobs...), knownSigs, extra, 16, timeout)
+		for _, j := range fjobs {
+			a.fixedReplayed++
+			if j.res == nil {
+				continue
+			}
+			for _, v := range j.res.Violations {
+				if !seenSig[v.Signature] && !isKnown(v.Signature) {
+					seenSig[v.Signature] = true
+					found = append(found, &foundViolation{sig: v.Signature, class: v.Class, detail: "a defect recorded as fixed fails again: " + v.Detail, replay: fjobOf[j].path})
+				}
+			}
+		}
 		for _, j := range rjobs {
 			if j.res != nil {
 				for _, v := range j.res.Violations {
@@ -361,8 +416,8 @@ func runCheck(id, tier string, seed int64) int {
 	if err := writeEvidence(pc, tier, seed, a, len(found), wall, known, reproduced); err != nil {
 		return fail2("writing evidence: %v", err)
 	}
-	fmt.Printf("summary property=%s tier=%s worlds built=%d booted=%d refused=%d boot_failures=%d runs=%d runs/hour=%.0f sim_time=%.1fs interleavings=%d violations=%d wall=%.1fs\n",
-		id, tier, a.worldsBuilt, a.worldsBooted, a.worldsRefused, a.bootFailures, a.runs, float64(a.runs)/wall*3600, float64(a.simUs)/1e6, a.interleavings, len(found), wall)
+	fmt.Printf("summary property=%s tier=%s worlds built=%d booted=%d refused=%d boot_failures=%d runs=%d runs/hour=%.0f sim_time=%.1fs interleavings=%d fixed_defect_replays=%d violations=%d wall=%.1fs\n",
+		id, tier, a.worldsBuilt, a.worldsBooted, a.worldsRefused, a.bootFailures, a.runs, float64(a.runs)/wall*3600, float64(a.simUs)/1e6, a.interleavings, a.fixedReplayed, len(found), wall)
 	if len(found) > 0 {
 		return 1
 	}
